@@ -140,6 +140,11 @@ def run(ctx: Any, prog: Program) -> None:
     ms = bsp.methods('BSP')
     views = views_of(bsp)
     inline = {k: ms[k] for k in INLINE if k in ms}
+    # private module-level helpers of bsp.py that pack or write (`_write_phys_block(buf, ...)` extracted from a lump writer) are read in place
+    for q_, fl_ in bsp.all_funcs().items():
+        if '.' not in q_ and q_.startswith('_') and len(fl_) == 1 and q_ not in inline and any(
+                isinstance(c_, ast.Call) and isinstance(c_.func, ast.Attribute) and c_.func.attr in ('pack', 'pack_into', 'write', 'unpack', 'unpack_from', 'iter_unpack', 'read') for c_ in ast.walk(fl_[0])):
+            inline[q_] = fl_[0]
     ctx.not_decided += ['value equality after find_or_insert re-indexing', 'float32 representability of values', 'which field each slot carries beyond arity (only checked where listed)']
     ctx.rule('C11.L1', 'reader and writer of each lump use the same struct slot sequence per layout configuration and per lump', floor=150)
     ctx.rule('C11.L2', 'unpack target count / pack argument count equals the number of value slots', floor=40)
@@ -842,6 +847,12 @@ def run(ctx: Any, prog: Program) -> None:
                 for c in ast.walk(lp):
                     if isinstance(c, ast.Call) and isinstance(c.func, ast.Attribute) and c.func.attr == 'append' and isinstance(c.func.value, ast.Name):
                         prim[c.func.value.id] = _fmt_lit(it_) or ''
+        # ... or built by a comprehension over it: `lst = [Rec(...) for (...) in struct.iter_unpack(<fmt>, data)]`
+        for a_ in walk_no_nested(fn):
+            if isinstance(a_, ast.Assign) and len(a_.targets) == 1 and isinstance(a_.targets[0], ast.Name) and isinstance(a_.value, ast.ListComp) and len(a_.value.generators) == 1:
+                it_ = a_.value.generators[0].iter
+                if isinstance(it_, ast.Call) and dotted(it_.func) in ('struct.iter_unpack', 'iter_unpack') and _fmt_lit(it_) and not a_.value.generators[0].ifs:
+                    prim[a_.targets[0].id] = _fmt_lit(it_) or ''
         if not prim:
             continue
         for asg in [a for a in ast.walk(fn) if isinstance(a, ast.Assign) and isinstance(a.targets[0], ast.Tuple) and isinstance(a.value, ast.Call)
@@ -862,9 +873,20 @@ def run(ctx: Any, prog: Program) -> None:
                 ctx.shape('C11.L28', bool(prim_lists), bsp, wfn, f'no loop of BSP._lmp_write_{qn[10:]} packs the primary record {prim_fmt!r} from a named list', func=f'BSP._lmp_write_{qn[10:]}', text=f'{qn[10:]}: owner index of {side_fmt}')
                 packs = [c for c in ast.walk(wfn) if isinstance(c, ast.Call) and (dotted(c.func) or '').endswith('pack') and _fmt_lit(c) == side_fmt and len(c.args) > slot + 1
                          and not (isinstance(c.args[slot + 1], ast.Constant) or (isinstance(c.args[slot + 1], ast.UnaryOp) and isinstance(c.args[slot + 1].operand, ast.Constant)))]
+                # the side record may be packed by a private helper the writer calls: the slot is then the helper's parameter, i.e. the call's argument
+                sites28 = [(pk, pk.args[slot + 1], pk) for pk in packs]
+                for hc in [c for c in ast.walk(wfn) if isinstance(c, ast.Call) and ((isinstance(c.func, ast.Name) and c.func.id in inline) or (isinstance(c.func, ast.Attribute) and dotted(c.func.value) == 'self' and c.func.attr in inline))]:
+                    hfn = inline[hc.func.id if isinstance(hc.func, ast.Name) else hc.func.attr]
+                    hps = [a.arg for a in hfn.args.args]
+                    if isinstance(hc.func, ast.Attribute) and hps and hps[0] in ('self', 'cls'):
+                        hps = hps[1:]
+                    for pk in [c for c in ast.walk(hfn) if isinstance(c, ast.Call) and (dotted(c.func) or '').endswith('pack') and _fmt_lit(c) == side_fmt and len(c.args) > slot + 1]:
+                        se = pk.args[slot + 1]
+                        if isinstance(se, ast.Name) and se.id in hps and hps.index(se.id) < len(hc.args):
+                            sites28.append((hc, hc.args[hps.index(se.id)], hc))
+                packs = [t[0] for t in sites28]
                 ctx.shape('C11.L28', bool(packs), bsp, wfn, f'no pack of the side record {side_fmt!r} with a computed owner index found', func=f'BSP._lmp_write_{qn[10:]}', text=f'{qn[10:]}: owner index of {side_fmt}')
-                for pk in packs:
-                    e_ = pk.args[slot + 1]
+                for pk, e_, _site in sites28:
                     n_owner += 1
                     verdict: Optional[bool] = None
                     why = ''
